@@ -272,6 +272,16 @@ class Ops(object):
         elif name in ("shl", "shr"):
             if self.path.decide(mk_cmp("lt", b2i(b), 0)):
                 raise self.pyvc.Raised(ValueError("negative shift count"))
+            if is_sym(b):
+                # a shift count with a small static range is enumerated: shifts by constants are plain arithmetic
+                from .terms import bounds as _bounds
+                lo, hi = _bounds(b2i(b).t)
+                lo = 0 if lo is None or lo < 0 else lo
+                if hi is not None and hi - lo <= 16:
+                    for k in range(lo, hi + 1):
+                        if k == hi or self.path.decide(Eq(b2i(b), k)):
+                            b = k
+                            break
         elif name == "pow":
             if self.path.decide(mk_cmp("lt", b2i(b), 0)):
                 raise Unsupported("negative exponent (float result)")
